@@ -246,6 +246,13 @@ def jobs(tier, seed=0):
         B("%sShared 3x2 timeout_cycles=%d healthy bus/32b [%s]" % (X._tag(full), t, wcor),
           lambda t=t, full=full, **k: make_shared(3, dcor, full=full, timeout=t, data_width=32, address_width=32,
                                                   env_kw={"max_stall": t - 2}, **k))
+    # the same fabrics on an UNHEALTHY bus (slaves stall at will: the watchdog fires, fakes handshakes and answers
+    # SLVERR / all-ones): model = shared interconnect composed with the Timeout FSM, compared port by port; the routing
+    # monitor is off (the fabric answers in place of the slaves by design — property C11)
+    for (t, full) in ((4, False), (8, True)):
+        B("%sShared 3x2 timeout_cycles=%d firing/32b [%s]" % (X._tag(full), t, wcor),
+          lambda t=t, full=full, **k: make_shared(3, dcor, full=full, timeout=t, data_width=32, address_width=32,
+                                                  domain=False, monitored=False, **k))
     B("AXILiteCrossbar 2x2 register=True/32b [%s]" % wcor,
       lambda **k: make_xbar(2, dcor, register=True, data_width=32, address_width=32, **k))
     # data widths 16 and 128 (byte -> word shifts 1 and 4), masters with different address widths (bus = the widest)
@@ -540,7 +547,7 @@ def correspond(ctx):
     ctx.assumptions = [
         "axl_route_partial hypotheses: SameSlaveWhileLocked, NoDataBeforeAddr, AXI-legal environment (valid held, "
         "responses only to accepted requests, in order), at most 255 outstanding requests per counter, disjoint address map",
-        "first/last lines other than r.last and the optional AXILiteTimeout are not modelled",
+        "first/last lines travel as pass-through payload; finite timeouts are modelled by composition with C11's Timeout FSM",
     ]
     ctx.extra_trusted = ["harness/axilib.py FastNetlist (compiled evaluator of the lowered netlist), cross-checked against "
                          "litex.gen.sim.core.Evaluator on every instance of every run and by two Evaluator-only mode-B instances"]
